@@ -314,7 +314,91 @@ def rule_ias15_domains(ctx):
     ctx.covered('R16.5', 'IAS15: loops that save, predict or restore particle coordinates range over all N integrated particles', n, floor=5, samples=samples[:4])
 
 
+def rule_variational_mirror(ctx):
+    """R16.6: in WHFast the variational particles live in the same Jacobi arrays as the real ones. Wherever a statement
+    list converts the real particles between Jacobi and inertial coordinates AND contains the per-configuration loop that
+    does the same for the variational particles, every such conversion in that list has to stand next to its loop (before the
+    next force evaluation) - otherwise one kick sees variational positions from the previous sub-step."""
+    tu = cfront.load_tu('integrator_whfast.c')
+    n = 0
+    samples = []
+    lists = 0
+
+    def item(st):
+        s_ = strip(st)
+        if s_.get('kind') == 'CallExpr':
+            nm = callee_name(s_) or ''
+            args = [render(a).replace(' ', '') for a in call_args(s_)]
+            if nm.startswith('reb_particles_transform_') and args and args[0] in ('particles', 'r.particles'):
+                return ('T', nm, line_of(s_))
+            if nm in ('reb_simulation_update_acceleration',):
+                return ('F', nm, line_of(s_))
+            return ('C', nm, line_of(s_))
+        if st.get('kind') == 'ForStmt' and 'N_var_config' in render(st['inner'][2] or {}):
+            for e in walk(st['inner'][-1]):
+                if e.get('kind') == 'CallExpr' and (callee_name(e) or '').startswith('reb_particles_transform_') and any('vc.index' in render(a) for a in call_args(e)):
+                    return ('M', callee_name(e), line_of(st))
+            return ('V', None, line_of(st))
+        return None
+
+    def seqs(node, fname):
+        k = node.get('kind')
+        if k == 'CompoundStmt':
+            cur = []
+            for c in node.get('inner', []):
+                body_ = c
+                while body_.get('kind') in ('CaseStmt', 'DefaultStmt'):
+                    if cur:
+                        yield cur
+                    cur = []
+                    body_ = body_['inner'][-1]
+                if body_.get('kind') == 'BreakStmt':
+                    if cur:
+                        yield cur
+                    cur = []
+                    continue
+                it = item(body_)
+                if it:
+                    cur.append(it)
+                if body_.get('kind') in ('IfStmt', 'SwitchStmt', 'ForStmt', 'WhileStmt', 'CompoundStmt') and not (it and it[0] in ('M', 'V')):
+                    yield from seqs(body_, fname)
+            if cur:
+                yield cur
+        else:
+            for c in node.get('inner', []) or []:
+                if isinstance(c, dict):
+                    yield from seqs(c, fname)
+
+    for fname, fn in sorted(tu.funcs.items()):
+        if cfront.basename(fn.get('_locfile') or fn.get('_file')) != 'integrator_whfast.c':
+            continue
+        for seq in seqs(cfront.body(fn), fname):
+            mirrored = {nm for k, nm, ln in seq if k == 'M'}
+            if not mirrored:
+                continue
+            lists += 1
+            for i, (k, nm, ln) in enumerate(seq):
+                if k != 'T' or nm not in mirrored:
+                    continue
+                n += 1
+                nxt = seq[i + 1] if i + 1 < len(seq) else None
+                prv = seq[i - 1] if i > 0 else None
+                where = 'src/integrator_whfast.c:%s %s' % (ln, fname)
+                if prv and prv[0] == 'M' and prv[1] == nm and not (nxt and nxt[0] == 'M' and nxt[1] == nm):
+                    nxt = prv           # the variational loop may come first (interaction step)
+                if not (nxt and nxt[0] == 'M' and nxt[1] == nm):
+                    ctx.report('R16.6', '%s:%s:mirror' % (fname, nm.replace('reb_particles_transform_', '')), where,
+                               'the real particles are converted with %s but the loop over the variational configurations that does the same (present elsewhere in this statement list) is not adjacent to it: the next force evaluation uses stale variational coordinates'
+                               % nm)
+                else:
+                    samples.append('%s: %s followed by its variational loop (line %s)' % (where, nm, nxt[2]))
+    anchor(lists >= 2, 'statement lists in integrator_whfast.c that convert real and variational particles side by side')
+    ctx.covered('R16.6', 'WHFast: each Jacobi<->inertial conversion of the real particles is followed by the same conversion of every variational configuration where the list has one',
+                n, floor=3, samples=samples[:4])
+
+
 def run(ctx):
+    rule_variational_mirror(ctx)
     rule_names(ctx)
     rule_rescale(ctx)
     rule_ias15_domains(ctx)
